@@ -213,4 +213,38 @@ theorem reLoop_congr (src1 src2 : Bytes) : ∀ (spans : List Span) (last : Nat),
       · exact hc)
     rw [h1, h2]
 
+/-! ### ip_mask: the trailing `, ` glue -/
+
+theorem splitOn_ne_nil (c : UInt8) : ∀ s, splitOn c s ≠ []
+  | [] => by simp [splitOn]
+  | b :: r => by
+    unfold splitOn
+    split
+    · simp
+    · split <;> simp
+
+theorem flatten_sep (sep : Bytes) : ∀ (l : List Bytes), l ≠ [] →
+    (l.map (· ++ sep)).flatten = sep.intercalate l ++ sep
+  | [], h => absurd rfl h
+  | [x], _ => by simp [List.intercalate]
+  | x :: y :: r, _ => by
+    have ih := flatten_sep sep (y :: r) (by simp)
+    simp only [List.map_cons, List.flatten_cons] at ih ⊢
+    rw [ih]
+    simp [List.intercalate, List.intersperse]
+
+theorem trimSuffix_append (x sep : Bytes) : trimSuffix (x ++ sep) sep = x := by
+  unfold trimSuffix
+  have : sep.isSuffixOf (x ++ sep) = true := by
+    rw [List.isSuffixOf_iff_suffix]; exact List.suffix_append x sep
+  simp [this]
+
+theorem ipMaskStr_eq (o : Oracles) (m4 m6 : Option (List UInt8)) (s : Bytes) :
+    ipMaskStr o m4 m6 s = commaSpace.intercalate ((splitOn 44 s).map fun p => maskValue o m4 m6 (o.trim p)) := by
+  unfold ipMaskStr
+  have h := flatten_sep commaSpace ((splitOn 44 s).map fun p => maskValue o m4 m6 (o.trim p))
+    (by simpa using splitOn_ne_nil 44 s)
+  rw [List.map_map] at h
+  rw [show ((fun p => maskValue o m4 m6 (o.trim p) ++ commaSpace) = ((· ++ commaSpace) ∘ fun p => maskValue o m4 m6 (o.trim p))) from rfl, h]
+  exact trimSuffix_append _ _
 end CaddyModel.C20
